@@ -6,6 +6,7 @@ import P0f.Model.TcpOptions
 import P0f.Model.SigParse
 import P0f.Model.Wire
 import P0f.Model.Render
+import P0f.Model.Mtu
 /-
   Line-protocol driver: one tab-separated op per input line, one answer line per op.
   Every op is answered by the *model* definitions that the theorems in `P0f/Props` are about.
@@ -55,6 +56,27 @@ def pktStr (p : PktL) (synMss : Nat) : String :=
   s!"opt [{natList p.tcp.opts.layout}] mss={p.tcp.opts.mss} ws={p.tcp.opts.ws} ts={p.tcp.opts.ts} pad={p.tcp.opts.eolPad} q={p.tcp.opts.quirks.toMask} | " ++
   s!"sig hdr={k.hdrLen} pay={if k.hasPayload then 1 else 0} syn={k.synMss} q={k.quirks.toMask} mult={m.1},{if m.2 then 1 else 0} | " ++
   s!"gate sf={if shouldFingerprint p.ip.isFragment p.tcp.type then 1 else 0} tcp={if validTcp p.ip.isFragment p.tcp.type then 1 else 0} up={if validUptime p.ip.isFragment p.tcp.type then 1 else 0}"
+
+def soptOfTok (t : String) : SOpt :=
+  let rest := (t.drop 1).toString
+  match t.front with
+  | 'E' => .eol | 'N' => .nop | 'S' => .sackok
+  | 'M' => .mss (parseNat rest)
+  | 'W' => .ws (parseNat rest)
+  | 'K' => .sack (parseNat rest)
+  | 'T' => match rest.splitOn "." with
+    | [a, b] => .ts (parseNat a) (parseNat b)
+    | _ => .nop
+  | 'R' => match rest.splitOn "." with
+    | [a, b] => .raw (parseNat a) (parseNat b)
+    | _ => .nop
+  | _ => .nop
+
+def tokOfSopt : SOpt → String
+  | .eol => "E" | .nop => "N" | .sackok => "S" | .mss v => s!"M{v}" | .ws v => s!"W{v}" | .sack n => s!"K{n}"
+  | .ts a b => s!"T{a}.{b}" | .raw k n => s!"R{k}.{n}"
+
+def soptsOf (s : String) : List SOpt := if s.isEmpty then [] else (s.splitOn ",").map soptOfTok
 
 def handle (f : Array String) : String :=
   match f[0]! with
@@ -128,6 +150,23 @@ def handle (f : Array String) : String :=
     let b := parseHex f[1]!
     let o := parseOpts b (parseBool f[2]!)
     s!"layout={o.layout.length} len={b.length}"
+  | "fpmtu" =>
+    let b := parseHex f[2]!
+    match (if f[1]! == "4" then decodeV4 b else decodeV6 b) with
+    | none => "SKIP illframed"
+    | some p =>
+      match fingerprintMtu (parseNatList f[3]!) p with
+      | none => "ERR packet"
+      | some (mtu, m) => s!"mtu={mtu} match={match m with | none => "none" | some i => toString i}"
+  | "impmtu" =>
+    let ver := parseNat f[1]!
+    let out := impersonateMtu (soptsOf f[2]!) (parseNat f[3]!) ver
+    let bytes := encodeOpts out
+    if bytes.length > 40 then "SKIP options-do-not-fit"
+    else
+      let o := parseOpts bytes true
+      let fp := if o.mss > 0 then s!"{o.mss + mtuHdr ver}" else "ERR_packet"
+      s!"opts={",".intercalate (out.map tokOfSopt)} same=1 fp={fp}"
   | "printsig" =>
     let b := parseHex f[2]!
     match (if f[1]! == "4" then decodeV4 b else decodeV6 b) with
